@@ -167,6 +167,17 @@ def run_arr(c):
     r = compare(got, exp)
     if r:
         return r
+    if c["sumup"] and c["obs"] == "sens" and not c.get("history"):
+        # with a pixel aggregation, sumup=True is still the sum over the source axis of the sumup=False output
+        for agg in ("max", "min", "median", "mean", "std"):
+            try:
+                per = fn(items, obs, squeeze=False, sumup=False, pixel_agg=agg)
+                tot = fn(items, obs, squeeze=False, sumup=True, pixel_agg=agg)
+            except Exception as e:
+                return f"pixel_agg={agg} raised {type(e).__name__}: {e}"[:200]
+            r = compare(tot, per.sum(axis=0, keepdims=True))
+            if r:
+                return f"sumup-with-pixel_agg={agg} " + r
     if c.get("history"):
         # edit a nested collection and compute again (stale flattenings must not survive)
         target = None
@@ -229,7 +240,9 @@ def lin_sources():
 
 
 ALPHAS = [-2.0, 0.0, 0.5, 3.0, 1e-12, 1e12]
-VECS = [(0.3, -0.2, 0.5), (1.0, 0, 0), (0, -0.7, 0.1), (0.2, 0.2, 0.2)]
+# generic vectors, axis vectors of both signs, and vectors whose components cancel exactly (also as sums of two others)
+VECS = [(0.3, -0.2, 0.5), (1.0, 0, 0), (0, -0.7, 0.1), (0.2, 0.2, 0.2), (1.0, -1.0, 0), (0.3, 0, -0.3), (1.0, 1.0, -2.0), (0, -1.0, 0),
+        (0, 0, 1.0), (-1.0, 0, 0)]
 LIN_OBS = [(0.05, 0.06, 0.04), (0.3, 0.2, 0.1), (1.7, 0.9, -0.6), (-3, 2, 5), (0.2, 0.1, 2.5)]
 
 
